@@ -11,7 +11,15 @@ def is_transfered_definition(eng: Engine, ck: Check, rule: str):
     rets = [n for n in walk_local(it.node) if isinstance(n, ast.Return)]
     ok = len(rets) == 1
     if ok:
-        a = cmp_atom(rets[0].value)
+        v = rets[0].value
+        # `filesize is not None and <equality>`: None == <int> is False anyway, the conjunct changes nothing
+        if isinstance(v, ast.BoolOp) and isinstance(v.op, ast.And) and len(v.values) == 2 and isinstance(v.values[0], ast.Compare) and \
+                len(v.values[0].ops) == 1 and isinstance(v.values[0].ops[0], ast.IsNot) and chain_str(v.values[0].left) == 'self.filesize' and is_none_const(v.values[0].comparators[0]):
+            v = v.values[1]
+        a = cmp_atom(v)
+        # `filesize - bytes_transfered == 0` is `filesize == bytes_transfered` on integers (no clamp, no default around the difference)
+        if a and a[0] == 'eq' and isinstance(a[1], ast.BinOp) and isinstance(a[1].op, ast.Sub) and const(a[2]) == 0 and not isinstance(const(a[2]), bool):
+            a = ('eq', a[1].left, a[1].right)
         ok = bool(a and a[0] == 'eq' and {chain_str(a[1]), chain_str(a[2])} == {'self.filesize', 'self.bytes_transfered'})
     ck.ob(rule, it, it.node, 'is_transfered() is exactly `filesize == bytes_transfered` (also for a 0-byte file: 0 == 0)', ok,
           f'body returns `{unparse(rets[0].value) if rets else "?"}`', construct='is_transfered definition')
